@@ -1,6 +1,7 @@
 package main
 
 import (
+	"io"
 	"context"
 	"errors"
 	"fmt"
@@ -84,6 +85,8 @@ type halfOpenConn struct {
 	pings   int
 	nclosed int
 	dead    bool
+	eofLast bool // the connection ends instead of going silent, and the last bytes arrive TOGETHER with io.EOF
+	eof     bool
 }
 
 func (h *halfOpenConn) Read(p []byte) (int, error) {
@@ -98,8 +101,17 @@ func (h *halfOpenConn) Read(p []byte) (int, error) {
 		}
 		copy(p, h.data[:n])
 		h.data = h.data[n:]
+		if h.eofLast && len(h.data) == 0 {
+			h.eof = true
+			h.mu.Unlock()
+			return n, io.EOF
+		}
 		h.mu.Unlock()
 		return n, nil
+	}
+	if h.eof {
+		h.mu.Unlock()
+		return 0, io.EOF
 	}
 	// the receive loop has handled everything that was sent (it only asks for more once its buffer is empty): from
 	// now on the peer is gone
@@ -352,6 +364,12 @@ func (rp recvProp) runReal(c Case, who, smid string, n0 int, rng *rand.Rand) str
 			}
 		}
 		hc = &halfOpenConn{data: []byte(sb.String()), rng: rng, max: []int{1, 7, 64, 4096, 1 << 16}[rng.Intn(5)], closed: make(chan struct{})}
+		if rng.Intn(3) == 0 {
+			// traffic logging on, and a connection that ends (rather than going silent) with its last bytes and io.EOF
+			// in ONE read - what crypto/tls does when close_notify is already buffered behind the last record
+			xt.LogTraffic(io.Discard)
+			hc.eofLast = true
+		}
 		xmpp.VerifXMPPTransportSetConn(xt, hc)
 		if _, err := stanza.InitStream(xt.GetDecoder()); err != nil {
 			return "initstream-failed"
